@@ -1,5 +1,6 @@
 // C16: lock-based hash containers (CuckooSet, StripedSet) are linearizable across concurrent resizes (DESIGN.md 9/C16)
 #include "sets.h"
+#include "seq.h"
 
 #ifndef FAMILY
 #   define FAMILY 1
@@ -19,7 +20,7 @@ namespace cc = cds::container;
 
 namespace {
 
-const char* prop() { return "C16"; }
+const char* prop() { return vh::property() == "C20" ? "C20" : "C16"; }
 std::vector<Scenario> g_scen;
 
 // keys k[0..5] all collide (same cells / same bucket); the table grows while they are in flight
@@ -29,6 +30,12 @@ void family( std::string const& tname, std::vector<int> k, int step, int bq, int
     typedef SetAdapter<Set, NoSmr, Caps, prop> A;
     std::string base = tname;
     std::vector<int> universe = k; universe.push_back( 0 );
+    if ( vh::property() == "C20" ) {
+        // three colliding keys; second start state: enough colliding keys present that the next insert relocates / resizes
+        TProg full; for ( int i = 0; i < resize_prefix; ++i ) full.push_back( POp{ INS, k[i], 0 } );
+        add_seq_scenarios<A, Caps>( g_scen, base, { k[0], k[1], k[resize_prefix] }, universe, { TProg(), full }, 3, 4 );
+        return;
+    }
     add_set_programs<A>( g_scen, base, set_grammar( { INS, DEL, HAS }, { k[0], k[1] }, 2, "g" ), 2, 0, step, bq, bt, universe );
     std::vector<Program> cur = set_curated( true, false, { 0, k[0], k[1], k[2] } );
     for ( auto const& p : cur ) {
